@@ -214,12 +214,23 @@ namespace occa {
   //   include_paths : Array
 
   hash_t kernelHeaderHash(const occa::json &props) {
-    return (
-      occa::hash(props["defines"])
-      ^ props["functions"]
-      ^ props["includes"]
-      ^ props["headers"]
-    );
+    // Hash one object that labels each value with its property name
+    // (XOR-ing the value hashes made e.g. includes and headers interchangeable)
+    static const char *hashedProps[] = {
+      "defines",
+      "functions",
+      "includes",
+      "headers"
+    };
+
+    occa::json key;
+    for (const char *name : hashedProps) {
+      const occa::json &value = props[name];
+      if (value.isInitialized()) {
+        key[name] = value;
+      }
+    }
+    return occa::hash(key);
   }
 
   std::string assembleKernelHeader(const occa::json &props) {
